@@ -24,6 +24,8 @@ CLAIMS["C11"] = ("For every function of the module that derives a cluster slot: 
 
 CLAIMS["C17"] = ("On every path of the maintenance routines: UpdateCheckpoint writes new ≺ repoints index ≺ deletes old ≺ deletes old index entry, a failed step is the last effect, and the database the old checkpoint was found in is selected before the new one is written; stale collection deletes only entries older than the threshold and never the newest entry of a live id, and drops an index entry only for dead ids whose entries are all gone; mode migration seeds the new namespace completely before repointing and retires the old one afterwards; re-keying passes [new, old].", "3/C17")
 
+CLAIMS["C12"] = ("On every path of every Decoder method each successful consuming read of the stream reader is paired with exactly one offset += bytes consumed and the offset moves nowhere else; the reader is touched only by the Decoder; MustDecodeOpt returns the offset read after decoding and parsers add it to the start offset of the same iteration; a bulk argument is an n+2 buffer read fully, CRLF-checked and returned as b[:n] on every success path; ParseArgs returns bs[1:].", "3/C12")
+
 NOT_YET = "check not built yet in this revision (planned, see DESIGN.md section 3)"
 
 def main():
